@@ -44,6 +44,18 @@ func main() {
 // loadOverlay maps /verif/harness/<pkg>/*.go to /repo/<pkg>/<file>.
 func loadOverlay(repo, harnessDir string) (map[string][]byte, error) {
 	ov := map[string][]byte{}
+	for _, extra := range extraHarnessDirs { // generated harness data (fixtures.go)
+		filepath.Walk(extra, func(p string, info os.FileInfo, err error) error {
+			if err != nil || info.IsDir() || !strings.HasSuffix(p, ".go") {
+				return nil
+			}
+			rel, _ := filepath.Rel(extra, p)
+			if b, err := os.ReadFile(p); err == nil {
+				ov[filepath.Join(repo, rel)] = b
+			}
+			return nil
+		})
+	}
 	err := filepath.Walk(harnessDir, func(p string, info os.FileInfo, err error) error {
 		if err != nil || info.IsDir() || !strings.HasSuffix(p, ".go") {
 			return err
@@ -83,7 +95,20 @@ func cmdRun(args []string) {
 	tabulate := fs.String("tabulate", "", "f1;f2")
 	lockmon := fs.Bool("lockmon", false, "lock discipline monitor")
 	fulllib := fs.Bool("fulllib", false, "interpret the schema library")
+	nfix := fs.Int("fixtures", 0, "translator validation: sample this many /repo/testdata fixtures (-1 all)")
+	fixMax := fs.Int("fixmax", 0, "skip fixtures larger than this many bytes")
 	fs.Parse(args)
+	if *nfix != 0 {
+		dir, n, err := genFixtures(*repo, *nfix, 0, *fixMax)
+		if dir != "" {
+			genDirs = append(genDirs, dir)
+			defer cleanupGen()
+		}
+		if err != nil {
+			fatal2("fixtures: %v", err)
+		}
+		fmt.Printf("%d fixtures, native outcomes computed\n", n)
+	}
 	ov, err := loadOverlay(*repo, *hdir)
 	if err != nil {
 		fmt.Fprintln(os.Stderr, err)
